@@ -31,15 +31,20 @@ def run(ctx: Ctx) -> None:
     effects.rule_shared_op_store(ctx)
     effects.rule_stale_swap_read(ctx)
     effects.rule_weight_preserve(ctx)
+    effects.rule_getter_alias(ctx, [NM], [("graphiq/backends/stabilizer/state.py", "MixedStabilizer"), ("graphiq/backends/stabilizer/state.py", "Stabilizer"),
+                                          ("graphiq/backends/density_matrix/state.py", "DensityMatrix")])
     tm = repo.module(gatesum.TRANSFORM)
     handled = tables.handled_tags_chain(repo, tm, repo.anchor(gatesum.TRANSFORM, "run_circuit"))
     tables.rule_vocab(ctx, "vocab.gates", [(NM, "PauliError.apply")], "run_circuit", handled)
     ctx.floor("dispatch.backend-cover", 9)
+    ctx.floor("effect.getter-alias", 1)
     ctx.floor("order.noise-off", 6)
     ctx.floor("sibling.noise-factor", 5)
 
 
 KNOCKOUTS = [
+    Knockout("noise-not-restored", CBASE, sub_nth("                            op.noise = noise_copy\n", "", 0), "effect.stale-swap-read", "not restored"),
+    Knockout("mixture-getter-copies", "graphiq/backends/stabilizer/state.py", sub_once("        return self._mixture\n\n    @mixture.setter", "        return self._mixture.copy()\n\n    @mixture.setter"), "effect.getter-alias", "getter returns a copy"),
     Knockout("weight-renormalise-channel", "graphiq/backends/density_matrix/state.py", sub_once("            self._data = dmf.hermitianize(tmp_state)", "            self._data = dmf.hermitianize(tmp_state)\n            self._data = self._data / np.trace(self._data)"), "weight.preserve", "apply_channel"),
     Knockout("weight-mixed-prob", "graphiq/backends/stabilizer/state.py", sub_once("            (p_i, transform.hadamard_gate(t_i, qubit_position))\n            for (p_i, t_i) in self._mixture", "            (1.0, transform.hadamard_gate(t_i, qubit_position))\n            for (p_i, t_i) in self._mixture"), "weight.preserve", "apply_hadamard"),
     Knockout("stale-swap-read", CBASE, sub_once("                            tmp_noise = [noise_copy[0], nm.NoNoise]", "                            tmp_noise = [op.noise[0], nm.NoNoise]"), "effect.stale-swap-read", "swap of op.noise", on_fixed_only=True),
